@@ -1,6 +1,7 @@
 import Physt.Driver
 import Physt.Model.HistND
 import Physt.Model.Config
+import Physt.Model.Special
 /-! ND part of the line-protocol driver. -/
 open Lean (Json)
 namespace Physt.Driver
@@ -279,12 +280,46 @@ def runConfig (case : Json) : E Json := do
   let (_, obs) := World.run dflt World.init sched
   pure (Json.arr (obs.map fun (t, o) => Json.mkObj [("t", Json.num t), ("obs", jCObs o)]).toArray)
 
+instance : Scalar Float where
+  two := 2
+  three := 3
+  cos := Float.cos
+  pi := 3.141592653589793
+
+/-- bin measures of a special / plain histogram class for per-axis bins given as doubles -/
+def runMeasure (case : Json) : E Json := do
+  let klass ← (← field case "class").getStr?
+  let axes ← getList (getList getBin) (← field case "axes")
+  let fl (b : Bin) : Float × Float := (ratToFloat b.1, ratToFloat b.2)
+  let ax := axes.map fun a => a.map fl
+  let out : List Float ← match klass, ax with
+    | "Histogram1D", [a] => pure (a.map fun (l, r) => Measure.width l r)
+    | "AzimuthalHistogram", [a] => pure (a.map fun (l, r) => Measure.width l r)
+    | "RadialHistogram", [a] => pure (a.map fun (l, r) => Measure.radial l r)
+    | "PolarHistogram", [a, b] => pure (a.flatMap fun (r1, r2) => b.map fun (p1, p2) => Measure.polar r1 r2 p1 p2)
+    | "SphericalSurfaceHistogram", [a, b] =>
+      pure (a.flatMap fun (t1, t2) => b.map fun (p1, p2) => Measure.sphereSurface t1 t2 p1 p2)
+    | "CylindricalSurfaceHistogram", [a, b] =>
+      pure (a.flatMap fun (p1, p2) => b.map fun (z1, z2) => Measure.cylinderSurface p1 p2 z1 z2)
+    | "SphericalHistogram", [a, b, c] =>
+      pure (a.flatMap fun (r1, r2) => b.flatMap fun (t1, t2) => c.map fun (p1, p2) => Measure.spherical r1 r2 t1 t2 p1 p2)
+    | "CylindricalHistogram", [a, b, c] =>
+      pure (a.flatMap fun (q1, q2) => b.flatMap fun (p1, p2) => c.map fun (z1, z2) => Measure.cylindrical q1 q2 p1 p2 z1 z2)
+    | "HistogramND", _ =>
+      let rec go : List (List (Float × Float)) → List Float
+        | [] => [1]
+        | a :: rest => a.flatMap fun (l, r) => (go rest).map fun x => (r - l) * x
+      pure (go ax)
+    | _, _ => throw s!"unknown class {klass}"
+  pure (Json.arr (out.map fun x => jRat (floatToRat x)).toArray)
+
 def runCaseAll (case : Json) : E Json := do
   let kind ← (← field case "kind").getStr?
   let fo := if getBoolD case "exact" false then FloatOps.exact else FloatOps.ieee
   match kind with
   | "histn" => runHistN fo case
   | "config" => runConfig case
+  | "measure" => runMeasure case
   | _ => runCase case
 
 def handleLineAll (line : String) : String :=
